@@ -22,8 +22,8 @@ def apply(ctx, W):
         ("r == ty_size(*self, type_registry)", L)])
     closure_annot(ctx, fw, u, fw.closure(fn, 1), params=["t: &ItemDefinition"], ret="r: Option<usize>",
                   ensures=["r == (match t.state { ItemState::Resolved(x) => Some(x.size), _ => None::<usize> })"])
-    closure_annot(ctx, fw, u, fw.closure(fn, 2), params=["s: usize"], ret="r: usize",
-                  ensures=["r == s * *count"])
+    closure_annot(ctx, fw, u, fw.closure(fn, 2), params=["s: usize"], ret="r: Option<usize>",
+                  ensures=["r == (if s * *count <= usize::MAX { Some((s * *count) as usize) } else { None::<usize> })"])
     fn, u = fn_into_verus(ctx, fw, "Type::alignment", ret="r", tags=L, decreases="self", ensures=[
         ("r == ty_align(*self, type_registry)", L)])
     closure_annot(ctx, fw, u, fw.closure(fn, 1), params=["t: &ItemDefinition"], ret="r: Option<usize>",
@@ -42,3 +42,122 @@ def apply(ctx, W):
     fn_into_verus(ctx, fw, "Region::size", ret="r", tags=L, ensures=["r == ty_size(self.type_ref, type_registry)"])
     fn_into_verus(ctx, fw, "Region::unnamed_field", ret="r", tags=L, ensures=[
         "r == (Region { visibility: Visibility::Private, name: None, doc: None, type_ref, is_base: false })"])
+
+    # W4: hoist `struct Regions` + `impl Regions` out of resolve_regions
+    rr = fw.fn("resolve_regions")
+    top = rr["span"][0]
+    rules.type_into_verus(ctx, fw, "Regions", hoist_to=top, within=rr)
+    rules.hoist_impl(ctx, fw, "Regions", rr, top)
+    rules.module_ghost(fw, top, """
+pub assume_specification [<Regions as Default>::default] () -> (r: Regions)
+    ensures r.regions@.len() == 0, r.last_address == 0;
+""")
+    fn, u = fn_into_verus(ctx, fw, "resolve_regions/Regions::push", ret="r", tags=L, unit="semantic::type_definition::Regions::push",
+        requires=["old(self).last_address == sum_sizes(old(self).regions@, type_registry)",
+                  "all_sized(old(self).regions@, type_registry)"],
+        ensures=[
+            ("final(self).last_address == sum_sizes(final(self).regions@, type_registry)", L),
+            ("all_sized(final(self).regions@, type_registry)", L),
+            ("r is Some ==> ty_size(region.type_ref, type_registry) is Some", L),
+            ("r is None ==> *final(self) == *old(self)", L),
+            ("""r is Some ==> (if ty_size(region.type_ref, type_registry) == Some(0usize) && region.type_ref is Array {
+                        *final(self) == *old(self)
+                    } else {
+                        final(self).regions@ == old(self).regions@.push(region)
+                        && final(self).last_address == old(self).last_address + ty_size(region.type_ref, type_registry)->0
+                    })""", L),
+            ("r is Some ==> (final(self).regions@, final(self).last_address as nat) == place((old(self).regions@, old(self).last_address as nat), region, type_registry)", L),
+        ])
+    ghost(ctx, fw, u, before(fw, fw.method_calls(fn, "push")[0]),
+          "proof { assert(self.regions@.push(region).drop_last() == self.regions@); }")
+
+    fn, u = fn_into_verus(ctx, fw, "resolve_regions", ret="res", tags=L,
+        requires=["reg_wf(&old(semantic).type_registry)"],
+        ensures=[
+            ("""res is Ok && res->Ok_0 is Some ==> ({
+            let out = (res->Ok_0->0).0@;
+            let size = (res->Ok_0->0).2;
+            let reg = &final(semantic).type_registry;
+            &&& all_sized(out, reg)
+            &&& size == sum_sizes(out, reg)
+            &&& (target_size is Some ==> size == target_size->0)
+            &&& placement_exists(regions@, out, reg)
+        })""", L),
+        ])
+    l1 = fw.loop(fn, 1)
+    l2 = fw.loop(fn, 2)
+    ghost(ctx, fw, u, before(fw, l1), """let ghost mut pos: Seq<int> = Seq::empty();
+    let ghost init_acc = (resolved.regions@, resolved.last_address as nat);""")
+    loop_spec(ctx, fw, u, l1, label="it", tags=L, invariants=[
+        "reg_wf(&semantic.type_registry)",
+        "resolved.last_address == sum_sizes(resolved.regions@, &semantic.type_registry)",
+        "all_sized(resolved.regions@, &semantic.type_registry)",
+        "pos.len() == it.index()",
+        "Some((resolved.regions@, resolved.last_address as nat)) == layout_fields(it.seq(), it.index() as int, init_acc, &semantic.type_registry)",
+        "forall|k: int| 0 <= k < it.index() ==> #[trigger] placed_ok(it.seq(), k, resolved.regions@, pos[k], &semantic.type_registry)",
+    ])
+    ghost(ctx, fw, u, body_start(l1), """let ghost old_regions = resolved.regions@;
+        let ghost old_pos = pos;""")
+    ghost(ctx, fw, u, after(fw, fw.let(fn, "size")), "proof { lemma_pad_size(size, &semantic.type_registry); }")
+    st = rules.body_stmts(fw, l1)
+    ghost(ctx, fw, u, st[-1]["span"][0], """let ghost before = resolved.regions@;
+        proof { lemma_offset_full(before, &semantic.type_registry); }""")
+    ghost(ctx, fw, u, body_end(l1), """proof {
+            let reg = &semantic.type_registry;
+            let k0 = it.index() as int;
+            if resolved.regions@.len() == before.len() {
+                pos = pos.push(-1);
+            } else {
+                pos = pos.push(before.len() as int);
+                lemma_sum_take_push(before, region, before.len() as int, reg);
+            }
+            assert forall|k: int| 0 <= k < k0 + 1 implies #[trigger] placed_ok(it.seq(), k, resolved.regions@, pos[k], reg) by {
+                if k < k0 {
+                    assert(placed_ok(it.seq(), k, old_regions, old_pos[k], reg));
+                    if old_pos[k] >= 0 {
+                        lemma_prefix_stable(old_regions, resolved.regions@, old_pos[k], reg);
+                    }
+                }
+            }
+        }""")
+    ghost(ctx, fw, u, after(fw, l1), "let ghost pre_pad = resolved.regions@;")
+    ghost(ctx, fw, u, after(fw, fw.top_let(fn, "size")), """let ghost pre = resolved.regions@;
+    let ghost reg = &semantic.type_registry;""")
+    rules.for_mut_to_iter_mut(fw, l2)
+    loop_spec(ctx, fw, u, l2, label="it2", tags=L, invariants=[
+        "reg == &semantic.type_registry",
+        "all_sized(pre, reg)",
+        "resolved.last_address == sum_sizes(pre, reg)",
+        "it2.seq().len() == pre.len()",
+        "forall|i: int| 0 <= i < pre.len() ==> *(#[trigger] it2.seq()[i]) == pre[i]",
+        "size == offset_of(pre, it2.index() as int, reg)",
+        """forall|i: int| 0 <= i < it2.index() ==> (#[trigger] final(it2.seq()[i])).type_ref == pre[i].type_ref
+                && (pre[i].name is Some ==> *final(it2.seq()[i]) == pre[i])""",
+    ])
+    ghost(ctx, fw, u, body_start(l2), """proof {
+            lemma_offset_step(pre, it2.index() as int, reg);
+            lemma_offset_mono(pre, it2.index() as int + 1, reg);
+        }""")
+    ghost(ctx, fw, u, rules.body_stmts(fw, fn)[-1]["span"][0], """proof {
+        let out = resolved.regions@;
+        assert(out.len() == pre.len());
+        assert forall|i: int| 0 <= i < pre.len() implies (#[trigger] out[i]).type_ref == pre[i].type_ref by {}
+        lemma_same_types_same_sums(pre, out, reg);
+        lemma_offset_full(pre, reg);
+        assert(all_placed_final(regions@, out, pos, reg)) by {
+            assert forall|k: int| 0 <= k < regions@.len() implies #[trigger] placed_ok_final(regions@, k, out, pos[k], reg) by {
+                assert(placed_ok(regions@, k, pre_pad, pos[k], reg));
+                if pos[k] >= 0 {
+                    lemma_prefix_stable(pre_pad, pre, pos[k], reg);
+                    lemma_same_types_same_offsets(pre, out, pos[k], reg);
+                }
+            }
+        }
+        assert(placement_exists(regions@, resolved.regions@, &semantic.type_registry));
+    }""")
+
+    # callee of resolve_regions, trusted for now
+    vf = W.file("semantic/type_definition/vftable.rs")
+    fn_into_verus(ctx, vf, "build", mode="T", ret="res", tags=L,
+        requires=["reg_wf(&old(semantic).type_registry)"],
+        ensures=["reg_wf(&final(semantic).type_registry)"])
